@@ -1,6 +1,7 @@
 import MosdnsVerif.Base.Hex
 import MosdnsVerif.Model.C16
 import MosdnsVerif.Gen.FnFraming
+import MosdnsVerif.Gen.Facts
 
 namespace Driver.C16
 open Model.C16
@@ -26,6 +27,18 @@ def chunk : Bytes → List Nat → Go.Stream
   | [], [] => []
   | b, [] => [b]
   | b, n :: ns => b.take n :: chunk (b.drop n) ns
+
+/-- `a,b/c/d,e`: segments (what arrives between two firings of the read deadline) separated by `/`, each a list of
+chunk sizes; the last segment also takes whatever is left. -/
+def segs? (s : String) : Option (List (List Nat)) := (s.splitOn "/").mapM sizes?
+
+def segChunks : Bytes → List (List Nat) → List Go.Stream
+  | _, [] => []
+  | b, [ns] => [chunk b ns]
+  | b, ns :: rest => chunk (b.take ns.sum) ns :: segChunks (b.drop ns.sum) rest
+
+/-- What the connection loop of the source does after a failed read (T2 fact). -/
+def srcResumes : Bool := Gen.Facts.c16ReadErrEndsConn != some true
 
 def showErr : Go.ReadErr → String
   | .eof => "err:eof" | .unexpectedEOF => "err:unexpectedEOF" | .tooSmall => "err:tooSmall"
@@ -62,6 +75,15 @@ def handle : List String → String
       let (ms, e) := decodeAll (b.length + 1) (chunk b ns)
       let tail := match e with | none => "end" | some e => showErr e
       String.intercalate ";" (ms.map summary) ++ " " ++ tail
+    | _, _ => "bad-op"
+  | ["serve", stream, segs] =>
+    -- the ServeTCP connection loop (as the regenerated fact says it reacts to a failed read) on a client stream of
+    -- whole frames cut into segments by read deadlines: how many handled messages are not frames of the client
+    match bytes? stream, segs? segs with
+    | some b, some ss =>
+      let sent := (decodeAll (b.length + 1) [b]).1
+      let handled := serve srcResumes (b.length + ss.length + 2) (segChunks b ss)
+      s!"foreign={(handled.filter (fun m => !sent.contains m)).length}"
     | _, _ => "bad-op"
   | _ => "bad-op"
 
